@@ -711,13 +711,16 @@ pub fn near_misses(p: &Program) -> Vec<(String, Program)> {
             if f.params.len() >= 2 {
                 // the book does not say whether a parameter name may repeat (R1: unspecified); C03 still
                 // demands that whatever is accepted compiles
-                let mut g = f.clone();
-                g.params[1].0 = g.params[0].0.clone();
-                variants.push(("fn-dup-param-name".into(), g));
-                let mut g = f.clone();
-                let last = g.params.len() - 1;
-                g.params[0].0 = g.params[last].0.clone();
-                variants.push(("fn-dup-param-name".into(), g));
+                // every pair of positions, both directions (adjacent and non-adjacent repeats)
+                for a in 0..f.params.len() {
+                    for b in 0..f.params.len() {
+                        if a != b && f.params[a].0 != f.params[b].0 {
+                            let mut g = f.clone();
+                            g.params[a].0 = g.params[b].0.clone();
+                            variants.push(("fn-dup-param-name".into(), g));
+                        }
+                    }
+                }
             }
             if f.name != "main" {
                 let mut q = p.clone();
